@@ -323,7 +323,7 @@ pub(crate) mod kani_verif {
             }
         };
     }
-    // @h name=c03_from_l2_pts props=C03,C07!,C01!,C05,C13!,C10! tier=quick kind=bounded cfg=L2w8 timeout=900 funcs=HssPrivateKey::from note="L=2, heights (10,5), counters 33 and 2^15-1 only (the all-counters harness c03_from_l2 is in the thorough tier; unbounded: Verus unit v8_hss)" contract="same contract as c03_from_l2 at two concrete counters: quick guard for the loop header of HssPrivateKey::from, which the Verus unit v8_hss rewrites to an index loop"
+    // @h name=c03_from_l2_pts props=C03,C07,C01,C05,C13,C10 tier=thorough kind=bounded cfg=L2w8 timeout=900 funcs=HssPrivateKey::from note="L=2, heights (10,5), counters 33 and 2^15-1 only (the all-counters harness c03_from_l2 is in the thorough tier; unbounded: Verus unit v8_hss)" contract="same contract as c03_from_l2 at two concrete counters: quick guard for the loop header of HssPrivateKey::from, which the Verus unit v8_hss rewrites to an index loop"
     #[kani::proof]
     #[kani::stub(zeroize::optimization_barrier, no_barrier)]
     #[kani::stub(<[u8; 32] as tinyvec::Array>::default, fast_default)]
@@ -340,9 +340,9 @@ pub(crate) mod kani_verif {
     }
     // @h name=c03_from_l1 props=C03,C07,C01,C05,C13,C10 tier=quick kind=proved cfg=L2w8 timeout=2400 funcs=HssPrivateKey::from contract="expanded key of counter c: level i tree = derive(level i-1 (seed,I), digit i-1), current leaf = digit i; child public key i signed by level i-1 leaf digit i-1 over its serialisation; used-leaf vector = digits (+1 above bottom); aux dropped after the top tree's signature; every counter; callees by contract (incl. CompressedUsedLeafsIndexes::to, proved in c13_to_*); L=1, height 10"
     from_harness!(c03_from_l1, 1, Some([6u8]));
-    // @h name=c03_from_l2 props=C03,C07!,C01!,C05,C13!,C10! tier=quick kind=proved cfg=L2w8 timeout=2400 funcs=HssPrivateKey::from contract="same, L=2, heights (10,5): every counter 0..2^15-1"
+    // @h name=c03_from_l2 props=C03,C07,C01,C05,C13,C10 tier=thorough kind=proved cfg=L2w8 timeout=2400 funcs=HssPrivateKey::from contract="same, L=2, heights (10,5): every counter 0..2^15-1"
     from_harness!(c03_from_l2, 2, Some([6u8, 5u8]));
-    // @h name=c03_from_l2_mixed props=C03,C07,C01,C05,C13,C10 tier=quick kind=proved cfg=L2w8 timeout=2400 funcs=HssPrivateKey::from contract="same, L=2, heights (2,25)"
+    // @h name=c03_from_l2_mixed props=C03,C07,C01,C05,C13,C10 tier=thorough kind=proved cfg=L2w8 timeout=2400 funcs=HssPrivateKey::from contract="same, L=2, heights (2,25)"
     from_harness!(c03_from_l2_mixed, 2, Some([1u8, 9u8]));
     // @h name=c03_from_l2_sym props=C03,C07,C01,C05,C13,C10 tier=thorough kind=proved cfg=L2w8 timeout=7200 funcs=HssPrivateKey::from contract="same, L=2, all height pairs (symbolic)"
     from_harness!(c03_from_l2_sym, 2, None);
@@ -386,10 +386,30 @@ pub(crate) mod kani_verif {
                 }
             }
         }
-        kani::cover!(len > 40 && !used, "fresh buffer with a cached level reachable");
+        kani::cover!(CAPB <= 40 || (len > 40 && !used), "fresh buffer with a cached level reachable");
         kani::cover!(used, "in-use buffer reachable");
     }
-    // @h name=c10_aux_front_n16 props=C10,C11! tier=quick kind=proved cfg=w8 timeout=2400 funcs=HssPrivateKey::get_expanded_aux_data;hss_is_aux_data_used;hss_get_aux_data_len;hss_store_aux_marker contract="every buffer of length 0..100 and every content: no panic; fresh buffers are shrunk, zeroed and marked before use (stale contents never read back); in-use buffers go through the MAC check (compute_hmac by contract)"
+    /// fresh buffer of one concrete length that is large enough to cache the leaf level of a 4-leaf top tree (n = 16:
+    /// 4 + 64 + 16 = 84 bytes used of 100): shrunk, every cached byte zero before use, marker = level word
+    fn check_aux_front_fresh_h2() {
+        let mut store: [u8; 100] = kani::any();
+        store[0] = 0;
+        let mut rk = ReferenceImplPrivateKey::<HF>::default();
+        let sb: [u8; 16] = kani::any();
+        rk.seed.as_mut_slice().copy_from_slice(&sb);
+        let top = LmsAlgorithm::LmsH2.construct_parameter::<HF>().unwrap();
+        let mut slice: &mut [u8] = &mut store[..];
+        let r = HssPrivateKey::<HF>::get_expanded_aux_data(Some(&mut slice), &rk, &top, false);
+        let e = r.unwrap();
+        assert!(e.level == 0x8000_0004, "hash-sigs rule: level 2 (the leaves) of the 4-leaf tree is cached");
+        let d = e.data[2].as_ref().unwrap();
+        assert!(d.len() == 64 && d.iter().all(|b| *b == 0), "a fresh buffer is zeroed before it is used as cache (stale contents never read back)");
+        assert!(e.data[0].is_none() && e.data[1].is_none(), "no other level");
+        drop(e);
+        assert!(slice.len() == 84, "shrunk to the used length");
+        kani::cover!(true, "reachable");
+    }
+    // @h name=c10_aux_front_n16 props=C10,C11 tier=thorough kind=proved cfg=w8 timeout=2400 funcs=HssPrivateKey::get_expanded_aux_data;hss_is_aux_data_used;hss_get_aux_data_len;hss_store_aux_marker contract="every buffer of length 0..100 and every content: no panic; fresh buffers are shrunk, zeroed and marked before use (stale contents never read back); in-use buffers go through the MAC check (compute_hmac by contract)"
     #[kani::proof]
     #[kani::stub(zeroize::optimization_barrier, no_barrier)]
     #[kani::stub(<[u8; 32] as tinyvec::Array>::default, fast_default)]
@@ -398,6 +418,24 @@ pub(crate) mod kani_verif {
     #[kani::unwind(110)]
     fn c10_aux_front_n16() {
         check_aux_front::<100>();
+    }
+    // @h name=c10_aux_front_24 props=C10,C11! tier=quick kind=proved cfg=w8 timeout=900 funcs=HssPrivateKey::get_expanded_aux_data;hss_is_aux_data_used;hss_get_aux_data_len;hss_store_aux_marker contract="same contract for every buffer of length 0..24 (too small for any level: fresh buffers shrink to the marker byte and are ignored; in-use ones go through the MAC check)"
+    #[kani::proof]
+    #[kani::stub(zeroize::optimization_barrier, no_barrier)]
+    #[kani::stub(<[u8; 32] as tinyvec::Array>::default, fast_default)]
+    #[kani::stub(crate::hss::aux::compute_seed_derive, crate::hss::aux::kani_verif::stub_seed_derive)]
+    #[kani::stub(crate::hss::aux::compute_hmac, crate::hss::aux::kani_verif::stub_hmac)]
+    #[kani::unwind(30)]
+    fn c10_aux_front_24() {
+        check_aux_front::<24>();
+    }
+    // @h name=c10_aux_front_fresh_h2 props=C10,C11,C09! tier=quick kind=bounded cfg=w8 timeout=900 funcs=HssPrivateKey::get_expanded_aux_data;hss_expand_aux_data;hss_store_aux_marker note="one concrete buffer length (100) and top tree (4 leaves, n = 16); all lengths 0..100 and all top trees: c10_aux_front_n16 (thorough)" contract="a fresh 100-byte buffer with arbitrary stale contents: shrunk to 84, level 2 cached, every cached byte zero before use, marker = level word"
+    #[kani::proof]
+    #[kani::stub(zeroize::optimization_barrier, no_barrier)]
+    #[kani::stub(<[u8; 32] as tinyvec::Array>::default, fast_default)]
+    #[kani::unwind(110)]
+    fn c10_aux_front_fresh_h2() {
+        check_aux_front_fresh_h2();
     }
 
     // ================================================================== C11: key generation front end
@@ -445,7 +483,7 @@ pub(crate) mod kani_verif {
     keygen_harness!(c11_keygen_len0, 0);
     // @h name=c11_keygen_len1 props=C11,C08! tier=quick kind=proved cfg=w8 timeout=1800 funcs=hss_keygen;HssPublicKey::from;HssPublicKey::to_binary_representation contract="1 level: Ok; private blob = be64(0)||param bytes||seed; public key = u32(L)||u32(lms)||u32(lmots)||I||T[1] (tree generation by contract)"
     keygen_harness!(c11_keygen_len1, 1);
-    // @h name=c11_keygen_len8 props=C11,C08 tier=quick kind=proved cfg=w8 timeout=1800 funcs=hss_keygen contract="8 levels: Ok"
+    // @h name=c11_keygen_len8 props=C11,C08 tier=thorough kind=proved cfg=w8 timeout=1800 funcs=hss_keygen contract="8 levels: Ok"
     keygen_harness!(c11_keygen_len8, 8);
     // @h name=c11_keygen_len9 props=C11,C14! tier=quick kind=proved cfg=w8 timeout=1800 funcs=hss_keygen;CompressedParameterSet::from contract="9 levels: Err, no panic"
     keygen_harness!(c11_keygen_len9, 9);
